@@ -48,6 +48,13 @@
     deletes the BindRequest owned by a deleted pod, the scheduler deletes stale
     BindRequests, somebody else may delete a reservation pod ([EvResGone]).
 
+    Ghost state: [p_given] is what the binder handed to the plugins' PreBind for
+    the pod in its latest bind attempt (in the real system: the device indices
+    written to the pod's ConfigMap); it is reset when an attempt starts.
+    [drain] takes fuel (one unit per deleted consumer; a step cannot delete more
+    consumers than the store holds); Run/C17.v checks that nothing is left
+    undelivered.
+
     Left out: informer-cache staleness (the client reads its own writes), the
     scaling-pod check's positive outcome (no unschedulable scaling pod exists;
     the List call is there), a reservation pod annotated with the EMPTY string
